@@ -7,11 +7,16 @@ open Acra.Py Acra.Model.Ch11Pay Acra.Model.Ch11Pay.ARINC Acra.Gen.Ch11ARINC Acra
 theorem ARINCWord_eq_sound (a b : Word) (h : Word.eq a b = true) : a.pack = b.pack := by
   rw [(Word_eq_iff a b).1 h]
 
+example : Word.eq ⟨4110, true, false, 1, 200, [1, 2, 3, 4]⟩ ⟨4110, true, false, 1, 200, [1, 2, 3, 4]⟩ = true := by decide
+
 theorem ARINC_eq_sound (a b : Packet) (h : Packet.eq a b = true) : a.pack.2 = b.pack.2 := by
   simp only [Packet.eq, Bool.and_eq_true, beq_iff_eq, wordsEq_iff] at h
   simp only [Packet.pack, h.2]
   repeat' split
   all_goals simp_all
+
+example : Packet.eq ⟨2, [⟨4110, true, false, 1, 200, [1, 2, 3, 4]⟩, ⟨0, false, true, 0, 0, [0, 0, 0, 0]⟩]⟩
+    ⟨2, [⟨4110, true, false, 1, 200, [1, 2, 3, 4]⟩, ⟨0, false, true, 0, 0, [0, 0, 0, 0]⟩]⟩ = true := by decide
 
 /-- the object decoded from `a`'s encoding compares equal to `a` (after `pack` has set its count) -/
 theorem ARINC_eq_decode (a t : Packet) (h : C04.ARINC_WF a) :
@@ -24,5 +29,12 @@ where
   C13_aux (a : Packet) : a.pack.1 = { a with msgcount := a.arincwords.length } := by
     simp only [Packet.pack]; repeat' split
     all_goals rfl
+
+/-- non-vacuity of `ARINC_eq_decode`: a two-word packet with a stale count is well formed -/
+example : C04.ARINC_WF ⟨0, [⟨4110, true, false, 1, 200, [1, 2, 3, 4]⟩, ⟨0, false, true, 0, 0, [0, 0, 0, 0]⟩]⟩ := by
+  refine ⟨?_, by simp⟩
+  intro w hw
+  simp only [List.mem_cons, List.mem_nil_iff, or_false] at hw
+  rcases hw with h | h <;> subst h <;> simp [Word_WF]
 
 end Acra.Props.C14
